@@ -159,4 +159,35 @@ theorem goPath_names_nodup (funcParams urlParams : List String) (as : List Annot
       · exact contains_false_of_not_mem hnew
       · intro hbs; exact hdisj b hb' (by simp [hbs])
 
+/-- the @Path pass reports nothing only if the annotations carry pairwise different values (parameter names) -/
+theorem goPath_values_nodup (funcParams urlParams : List String) (as : List Annot) (sp sv sa : List String)
+    (h : (linkValidate.goPath urlParams funcParams as sp sv sa).1 = []) :
+    (as.map (·.value)).Nodup ∧ ∀ a ∈ as, a.value ∉ sv := by
+  induction as generalizing sp sv sa with
+  | nil => simp
+  | cons a rest ih =>
+    unfold linkValidate.goPath at h
+    simp only at h
+    generalize hrec : linkValidate.goPath urlParams funcParams rest _ _ _ = rec at h
+    obtain ⟨r, spr⟩ := rec
+    simp only [List.append_eq_nil_iff] at h
+    obtain ⟨⟨⟨_hA, hB⟩, _hC⟩, hr⟩ := h
+    have hsv : sv.contains a.value = false := by
+      cases hc : sv.contains a.value with
+      | false => rfl
+      | true => rw [hc] at hB; simp at hB
+    rw [hsv] at hrec
+    simp only [Bool.false_eq_true, if_false] at hrec
+    obtain ⟨hnd, hdisj⟩ := ih _ _ _ (by rw [hrec]; exact hr)
+    refine ⟨?_, ?_⟩
+    · rw [List.map_cons]
+      refine List.nodup_cons.2 ⟨?_, hnd⟩
+      intro hm
+      obtain ⟨b, hb, hbv⟩ := List.mem_map.1 hm
+      exact hdisj b hb (by simp [hbv])
+    · intro b hb
+      rcases List.mem_cons.1 hb with rfl | hb'
+      · exact contains_false_of_not_mem hsv
+      · intro hbs; exact hdisj b hb' (by simp [hbs])
+
 end Gleece.Validate
